@@ -445,7 +445,7 @@ pub fn c18(tier: Tier, seed: u64) -> i32 {
     let acc = run_histories(
         seed,
         per_shard,
-        move |_r| HistCfg { ops: 150, spl_only: false, lifecycle_ext: true, w_swap: 20, w_liq: 22, w_fees: 8, w_lifecycle: 45, w_clock: 2, w_setters: 1, w_reward: 4, ..Default::default() },
+        move |_r| HistCfg { ops: 150, spl_only: false, lifecycle_ext: true, allow_adaptive: true, w_swap: 20, w_liq: 22, w_fees: 8, w_lifecycle: 45, w_clock: 2, w_setters: 1, w_reward: 4, ..Default::default() },
         || vec![Box::new(C18) as Box<dyn Monitor>],
     );
     let mut acc = acc;
